@@ -308,8 +308,11 @@ def h_parse_amount(ctx):
     inner = z3.If(paren, z3.SubString(s0, 1, z3.Length(s0) - 2), s0)
     cur = strip(re_sub_cur(inner))
     if european:
-        clean = replace_all(replace_all(replace_all(cur, z3.StringVal('.'), z3.StringVal('')), z3.StringVal(' '), z3.StringVal('')),
-                            z3.StringVal(','), z3.StringVal('.'))
+        # thousands separators of the European notation: period, space, no-break space (U+00A0), narrow no-break space (U+202F)
+        clean = cur
+        for t in ('.', ' ', '\u00a0', '\u202f'):
+            clean = replace_all(clean, z3.StringVal(t), z3.StringVal(''))
+        clean = replace_all(clean, z3.StringVal(','), z3.StringVal('.'))
     else:
         clean = replace_all(cur, z3.StringVal(','), z3.StringVal(''))
     try:
